@@ -9,6 +9,7 @@ Line protocol for Model/Framing.lean (C03).
               | `(c <err>)` deserialize raised: stop;   <msg> = packet s-expression (soup) | x<frame bytes> (fix)
   frame.deser soup|fix x<buf>     → `ok none` | `ok <msg> x<rest>` | `err <class>`
   fix.msgtype x<frame>            → x<type bytes>
+  fix.wf x<frame>                 → `true` | `false`   (`wfFixFrame`, the hypothesis of the FIX theorems)
 -/
 namespace NasdaqModel.Driver.FramingD
 open NasdaqModel Sexp Framing
@@ -53,6 +54,8 @@ def handle (op : String) (args : List Sexp) : Option String :=
       some (showDeser fixMsg (fixDeser (← asBytes b)))
   | "fix.msgtype", [b] => do
       some (bytesToHex (getMsgType (← asBytes b)))
+  | "fix.wf", [b] => do
+      some (if wfFixFrame (← asBytes b) then "true" else "false")
   | _, _ => none
 
 end NasdaqModel.Driver.FramingD
